@@ -102,6 +102,11 @@ func (reconfStream) Generate(rng *rand.Rand, tier string, emit func(Case)) {
 		{[][]reconfOpt{{{Fs: "add:P0"}}, {{Auto: &tr}}}, -1},
 		{[][]reconfOpt{{{Dirs: []string{"P1"}}}, {{Fs: "add:P1"}}}, -1},
 		{[][]reconfOpt{{{Auto: &fa}}, {{Fs: "add:P0"}}}, -1},
+		// the watcher loses events (queue overflow), then the cache is reconfigured: whatever the watcher did about the
+		// loss, the reconfigured cache holds what a new one holds and nothing is left behind at the end
+		{[][]reconfOpt{{{Fs: "overflow:P0"}}, {{Dirs: []string{"P0", "P1"}}}}, -1},
+		{[][]reconfOpt{{{Fs: "overflow:P0"}}, {{Auto: &tr}}, {{Fs: "overflow:P0"}}, {{Auto: &fa}}}, -1},
+		{[][]reconfOpt{{{Dirs: []string{"P1", "P0"}}}, {{Fs: "overflow:P0"}}, {{Fs: "add:P1"}}, {{Dirs: []string{"P0"}}}}, -1},
 		// an empty directory list is a directory list
 		{[][]reconfOpt{{{Dirs: []string{}}}}, -1},
 		{[][]reconfOpt{{{Dirs: []string{"P1"}}}, {{Dirs: []string{}}, {Auto: &fa}}}, -1},
@@ -279,6 +284,9 @@ func (reconfStream) Execute(c Case) {
 				nfs++
 				if op == "add" {
 					writeProbeSpec(filepath.Join(reconfRoot, d), fmt.Sprintf("fs%d", nfs))
+				} else if op == "overflow" {
+					// the watcher loses events: its kernel queue overflows while it waits for the cache mutex
+					overflowWatcher(cache, filepath.Join(reconfRoot, d))
 				} else {
 					_ = os.Remove(filepath.Join(reconfRoot, d, "s.json"))
 				}
@@ -549,4 +557,37 @@ func childDefaultCache(args []string) int {
 	b, _ := json.Marshal(cdi.GetDefaultCache().ListDevices())
 	fmt.Println(string(b))
 	return 0
+}
+
+// overflowWatcher makes the inotify queue of the cache's watcher overflow: one event that passes the watcher's filter
+// (so that it waits for the cache mutex, which is held here), then more events than the queue holds, of a kind the
+// watcher filters out. Returns when the watcher has had time to drain what is left.
+func overflowWatcher(cache *cdi.Cache, dir string) {
+	if fi, err := os.Stat(dir); err != nil || !fi.IsDir() {
+		return
+	}
+	maxq := 16384
+	if b, err := os.ReadFile("/proc/sys/fs/inotify/max_queued_events"); err == nil {
+		_, _ = fmt.Sscan(string(b), &maxq)
+	}
+	cache.Lock()
+	t := filepath.Join(dir, "zz-overflow.json")
+	if f, err := os.OpenFile(t, os.O_CREATE|os.O_WRONLY, 0o644); err == nil {
+		_ = f.Close()
+	}
+	time.Sleep(50 * time.Millisecond)
+	f1, _ := os.OpenFile(filepath.Join(dir, "one.log"), os.O_CREATE|os.O_WRONLY|os.O_APPEND, 0o644)
+	f2, _ := os.OpenFile(filepath.Join(dir, "two.log"), os.O_CREATE|os.O_WRONLY|os.O_APPEND, 0o644)
+	for i := 0; i < maxq*3/4; i++ {
+		_, _ = f1.Write([]byte("x"))
+		_, _ = f2.Write([]byte("y"))
+	}
+	_ = f1.Close()
+	_ = f2.Close()
+	cache.Unlock()
+	time.Sleep(400 * time.Millisecond)
+	_ = os.Remove(t)
+	_ = os.Remove(filepath.Join(dir, "one.log"))
+	_ = os.Remove(filepath.Join(dir, "two.log"))
+	time.Sleep(200 * time.Millisecond)
 }
